@@ -6,4 +6,4 @@ package curves
 
 //@ iface (c SpeedCurve).Evaluate() (value int, err error)
 //@   ensures[C06.range C07] err == nil ==> 0 <= value && value <= 255
-//@   modifies each(*LinearSpeedCurve).Value, each(*FunctionSpeedCurve).Value, each(*PidSpeedCurve).Value, each(*util.PidLoop).integral, each(*util.PidLoop).error, each(*util.PidLoop).lastTime, procWorld, started
+//@   modifies each(*LinearSpeedCurve).Value, each(*FunctionSpeedCurve).Value, each(*PidSpeedCurve).Value, each(*util.PidLoop).integral, each(*util.PidLoop).error, each(*util.PidLoop).lastTime, procWorld, started, lastReadFailed
